@@ -599,6 +599,28 @@ func checkInfoFromUnrestrictedIterator(p *Program, r *Result, rule string) {
 			return false, "iterator origin too deep"
 		}
 		switch x := itv.(type) {
+		case *ssa.Extract:
+			// it, err := r.scanSummary(): judge what the callee returns in that position
+			if c, ok := x.Tuple.(*ssa.Call); ok {
+				if g := c.Call.StaticCallee(); g != nil && g.Blocks != nil && p.isRepoFunc(g) {
+					n := 0
+					for _, in := range instrsOf(g) {
+						if ret, ok := in.(*ssa.Return); ok && x.Index < len(ret.Results) {
+							if isNilConst(ret.Results[x.Index]) {
+								continue
+							}
+							n++
+							if ok, why := judge(ret.Results[x.Index], depth+1); !ok {
+								return false, why
+							}
+						}
+					}
+					if n > 0 {
+						return true, ""
+					}
+				}
+			}
+			return false, "iterator origin not recognised (" + valueLabel(itv) + ")"
 		case *ssa.Call:
 			if calleeRepoName(x) != "mcap.Reader.indexedMessageIterator" || len(x.Call.Args) < 2 {
 				return false, "iterator is not created by Reader.indexedMessageIterator"
@@ -659,7 +681,7 @@ func checkInfoFromUnrestrictedIterator(p *Program, r *Result, rule string) {
 		return false, "iterator origin not recognised (" + valueLabel(itv) + ")"
 	}
 	n := 0
-	for _, fn := range methodsOf(p, pkgMcap, "Reader") {
+	for _, fn := range append(methodsOf(p, pkgMcap, "Reader"), methodsOf(p, pkgMcap, "indexedMessageIterator")...) {
 		if fn.Blocks == nil {
 			continue
 		}
